@@ -266,6 +266,7 @@ fn eval_inner(target: &str, input: &str) -> Option<String> {
         "ns_layout" => bounded::ns_layout(input),
         "char_ref" => bounded::char_ref(input),
         "wf_reject" => bounded::wf_reject(input),
+        "ns_scope" => nsscope::check(input),
         "line_ends" => bounded::line_ends(input),
         "level_order" => bounded::level_order(input),
         "tree_ops" => {
@@ -355,6 +356,7 @@ fn inputs(target: &str, large: bool) -> Vec<String> {
         "three_routes" => routes::inputs(large),
         "char_ref" => bounded::ref_strings(large),
         "wf_reject" => bounded::wf_inputs(),
+        "ns_scope" => nsscope::inputs(large),
         "line_ends" => bounded::line_end_inputs(large),
         "level_order" => { let mut v = Vec::new(); for d in 0..3 { for n in 0..12 { v.push(format!("{} {}", d, n)); } } v }
         "scope_queries" => {
@@ -399,7 +401,21 @@ fn inputs(target: &str, large: bool) -> Vec<String> {
         }
         "strip_ws" => strings(&[' ', '\t', '\n', '\r', '\u{a0}', '\u{2003}', 'x'], if large { 4 } else { 3 }),
         "xml_id" => strings(&[' ', 'x', 'y', '\t'], if large { 7 } else { 5 }),
-        _ => strings(CRIT, if large { 4 } else { 3 }),
+        _ => {
+            let mut v = strings(CRIT, if large { 4 } else { 3 });
+            // a character with a special meaning in front of / behind every printable ASCII character and a few others
+            let mut others: Vec<char> = (0x20u8..0x7f).map(|b| b as char).collect();
+            others.extend(['\u{a0}', '\u{e9}', '\u{2028}', '\u{1f600}']);
+            for sp in ['&', '<', '>', '"', '\'', ']', '\u{a0}'] {
+                for o in &others {
+                    v.push(format!("{}{}", sp, o));
+                    v.push(format!("{}{}", o, sp));
+                    v.push(format!("x{}{}y", sp, o));
+                    v.push(format!("{}{}{}", sp, o, sp));
+                }
+            }
+            v
+        }
     }
 }
 
@@ -1395,6 +1411,8 @@ mod deepeq {
             "<e xmlns:p=\"urn:1\" p:x=\"1\"/>", "<e xmlns:q=\"urn:1\" q:x=\"1\"/>", "<e xmlns:p=\"urn:2\" p:x=\"1\"/>", "<e xmlns:p=\"urn:1\" p:x=\"1\" x=\"1\"/>", "<e xmlns:p=\"urn:1\" x=\"1\" p:x=\"1\"/>",
             // one a proper prefix of the other (as a child sequence, as a text sequence, as an element sequence)
             "<e>t<a/>u</e>", "<e>t<a/></e>", "<e><a/>t</e>",
+            // nested elements of the same name / shape (compared with each other inside one document as well)
+            "<p><p/></p>", "<d><e><f/></e></d>", "<e><a><b/></a><a><b/></a></e>",
             // fragments ("F:"): several nodes directly under the document node
             "F:<a/>", "F:<a/><b/>", "F:<a/><b/>t", "F:t", "F:t<a/>", "F:<a/><!--c--><b/>", "F:<a/>t<b/>u",
         ]
@@ -1459,6 +1477,18 @@ mod deepeq {
             if xot.advanced_deep_equal(a, b, |n| xot.is_text(n), |x, y| x == y) != same_t { return Some(format!("advanced_deep_equal({}, {}) on the {} with a text-only filter is {}, the text sequences are {}", ds[i], ds[j], what, !same_t, if same_t { "equal" } else { "different" })); }
             let same_e = elems(&xot, a) == elems(&xot, b);
             if xot.advanced_deep_equal(a, b, |n| xot.is_element(n), |x, y| x == y) != same_e { return Some(format!("advanced_deep_equal({}, {}) on the {} with an elements-only filter is {}, the element structures are {}", ds[i], ds[j], what, !same_e, if same_e { "equal" } else { "different" })); }
+        }
+        // every pair of elements inside one document (ancestor / descendant pairs included)
+        if i == j {
+            let els: Vec<Node> = xot.descendants(ra).filter(|n| xot.is_element(*n)).collect();
+            for x in &els { for y in &els {
+                let same = canon(&xot, *x, false) == canon(&xot, *y, false);
+                if xot.deep_equal(*x, *y) != same { return Some(format!("deep_equal on two elements of {} is {}, canonical forms are {}", ds[i], !same, if same { "equal" } else { "different" })); }
+                let same_c = kids(&xot, *x, false) == kids(&xot, *y, false);
+                if xot.deep_equal_children(*x, *y) != same_c { return Some(format!("deep_equal_children on two elements of {} (one may contain the other) is {}, child sequences are {}", ds[i], !same_c, if same_c { "equal" } else { "different" })); }
+                let same_x = canon(&xot, *x, true) == canon(&xot, *y, true);
+                if xot.deep_equal_xpath(*x, *y, |p, q| p == q) != same_x { return Some(format!("deep_equal_xpath on two elements of {} disagrees with canonical forms", ds[i])); }
+            }}
         }
         // string_value: concatenation of descendant text in document order
         let text: String = xot.descendants(ra).filter_map(|n| xot.text_str(n)).collect();
@@ -2165,6 +2195,93 @@ fn c09_scope(input: &str) -> Option<String> {
         }
     }
     None
+}
+
+// (C02, C03, C08) namespace scoping in the parser: small documents generated from a description (shape, per element: a
+// declaration, a prefixed or unprefixed name, an optional prefixed attribute), so that the expanded name of every element
+// and attribute - or the fact that a prefix is unbound where it is used - is known by construction
+#[allow(dead_code)]
+mod nsscope {
+    use xot::Xot;
+
+    // shapes: parent index of each element (element 0 is the root)
+    const SHAPES: &[&[usize]] = &[&[0, 0, 0], &[0, 0, 1], &[0, 0, 1, 0], &[0, 0, 0, 2]];
+    // per element: decl 0 none / 1 p=u / 2 p=v / 3 default=d ; name 0 unprefixed / 1 p: ; attr 0 none / 1 p:x
+    pub fn inputs(large: bool) -> Vec<String> {
+        let mut v = Vec::new();
+        for (si, shape) in SHAPES.iter().enumerate() {
+            let n = shape.len();
+            if n == 4 && !large { 
+                // the four-element shapes: declarations and names vary, attributes only on the last element
+                let per = 8usize;
+                for code in 0..per.pow(4) {
+                    let mut c = code; let mut spec = String::new();
+                    for k in 0..4 { let e = c % per; c /= per; spec.push_str(&format!("{}{}{}", e / 2, e % 2, if k == 3 { 1 } else { 0 })); }
+                    v.push(format!("{}|{}", si, spec));
+                }
+                continue;
+            }
+            let per = 16usize;
+            for code in 0..per.pow(n as u32) {
+                let mut c = code; let mut spec = String::new();
+                for _ in 0..n { let e = c % per; c /= per; spec.push_str(&format!("{}{}{}", e / 4, (e / 2) % 2, e % 2)); }
+                v.push(format!("{}|{}", si, spec));
+            }
+        }
+        v
+    }
+
+    pub fn check(input: &str) -> Option<String> {
+        let (si, spec) = input.split_once('|')?;
+        let shape = SHAPES.get(si.parse::<usize>().ok()?)?;
+        let d: Vec<u32> = spec.chars().map(|c| c.to_digit(10).unwrap_or(0)).collect();
+        let n = shape.len();
+        if d.len() != 3 * n { return None; }
+        // the text, and the expected expanded names by a reference scope walk
+        let kids = |i: usize| -> Vec<usize> { (1..n).filter(|k| shape[*k] == i).collect() };
+        fn emit(i: usize, d: &[u32], kids: &dyn Fn(usize) -> Vec<usize>, p: Option<&'static str>, dflt: &'static str, out: &mut String, want: &mut Vec<(String, String)>, ok: &mut bool) {
+            let (decl, pref, attr) = (d[3 * i], d[3 * i + 1], d[3 * i + 2]);
+            let (p, dflt) = match decl { 1 => (Some("u"), dflt), 2 => (Some("v"), dflt), 3 => (p, "d"), _ => (p, dflt) };
+            let local = format!("e{}", i);
+            let qname = if pref == 1 { format!("p:{}", local) } else { local.clone() };
+            out.push('<'); out.push_str(&qname);
+            match decl { 1 => out.push_str(" xmlns:p=\"u\""), 2 => out.push_str(" xmlns:p=\"v\""), 3 => out.push_str(" xmlns=\"d\""), _ => {} }
+            if attr == 1 { out.push_str(" p:x=\"1\""); }
+            out.push('>');
+            if pref == 1 { match p { Some(u) => want.push((u.to_string(), local.clone())), None => *ok = false } } else { want.push((dflt.to_string(), local.clone())); }
+            if attr == 1 { match p { Some(u) => want.push((u.to_string(), "x".to_string())), None => *ok = false } }
+            for k in kids(i) { emit(k, d, kids, p, dflt, out, want, ok); }
+            out.push_str("</"); out.push_str(&qname); out.push('>');
+        }
+        let mut text = String::new(); let mut want = Vec::new(); let mut ok = true;
+        emit(0, &d, &kids, None, "", &mut text, &mut want, &mut ok);
+        let mut xot = Xot::new();
+        let res = std::panic::catch_unwind(std::panic::AssertUnwindSafe(|| xot.parse(&text)));
+        let root = match res { Err(_) => return Some(format!("parse panics on {:?}", text)), Ok(r) => r };
+        match (ok, root) {
+            (false, Ok(_)) => Some(format!("{:?} uses a prefix where it is not bound, but is accepted", text)),
+            (false, Err(_)) => None,
+            (true, Err(e)) => Some(format!("{:?} is namespace-well-formed but is rejected: {:?}", text, e)),
+            (true, Ok(root)) => {
+                let mut got: Vec<(String, String)> = Vec::new();
+                let mut ids: Vec<xot::NameId> = Vec::new();
+                for nd in xot.descendants(root) {
+                    if let Some(e) = xot.element(nd) {
+                        let (l, u) = xot.name_ns_str(e.name()); got.push((u.to_string(), l.to_string())); ids.push(e.name());
+                        for (k, _) in xot.attributes(nd).iter() { let (l, u) = xot.name_ns_str(k); got.push((u.to_string(), l.to_string())); ids.push(k); }
+                    }
+                }
+                if got != want { return Some(format!("{:?}: expanded names {:?}, XML Namespaces scoping gives {:?}", text, got, want)); }
+                // ids: equal exactly when the expanded names are equal
+                for a in 0..got.len() { for b in 0..got.len() { if (got[a] == got[b]) != (ids[a] == ids[b]) { return Some(format!("{:?}: name ids and expanded names disagree ({:?} / {:?})", text, got[a], got[b])); } } }
+                // serialisation is accepted again and gives the same names
+                let s = match xot.to_string(root) { Ok(s) => s, Err(e) => return Some(format!("{:?} is accepted but does not serialise: {:?}", text, e)) };
+                let back = match xot.parse(&s) { Ok(b) => b, Err(e) => return Some(format!("{:?}: its serialisation {:?} is rejected: {:?}", text, s, e)) };
+                if !xot.deep_equal(root, back) { return Some(format!("{:?}: its serialisation {:?} reparses to a different tree", text, s)); }
+                None
+            }
+        }
+    }
 }
 
 // (C13) shallow_equal_ignore_attributes against "attribute maps equal after removing the ignored names (as a set)"
